@@ -22,9 +22,17 @@ def main():
         sys.exit(mod.replay(prop, sys.argv[3]))
     tier, seed, shard, nshards, out = sys.argv[2:7]
     caught = []
+    from nv.cover import LineCoverage
+    import nasim.envs  # noqa  (make sure the subject's modules are loaded)
+    import nasim.scenarios.generator  # noqa
+    import nasim.scenarios.loader  # noqa
+    cov = LineCoverage()
+    cov.start()
     with warnings.catch_warnings(record=True) as wl:
         warnings.simplefilter("always")
         res = mod.run(prop, tier, int(seed), int(shard), int(nshards))
+        res.setdefault("extra", {})["subject_coverage"] = cov.report()
+        cov.stop()
         for w in wl[:200]:
             caught.append(f"{w.category.__name__}: {str(w.message)[:120]}")
     res.setdefault("extra", {})["warnings_captured"] = len(caught)
